@@ -472,12 +472,15 @@ Boolean MACRO_Processor(PInputTag PInp, as_dynstr_t* p_dest) {
     }
     as_dynstr_copy_c_str(p_dest, Lauf->Content);
 
-    /* process parameters */
+    /* process parameters: every formal parameter has a token in the line. After
+       SHIFT, the list may have become shorter than that: missing ones are empty */
 
     Lauf = PInp->Params;
-    for (z = 1; z <= PInp->ParCnt; z++) {
-        ExpandLine(Lauf->Content, z, p_dest);
-        Lauf = Lauf->Next;
+    for (z = 1; z <= PInp->Macro->ParamCount; z++) {
+        ExpandLine(Lauf ? Lauf->Content : "", z, p_dest);
+        if (Lauf) {
+            Lauf = Lauf->Next;
+        }
     }
 
     /* process special parameters */
